@@ -186,7 +186,11 @@ def evaluate(world, run):
                 up_to_date = all(_sha(before, rel) == _golden_sha(g, rel) for rel in AW_FILES)
                 if code == 0 and not up_to_date:
                     diff = [rel for rel in AW_FILES if _sha(before, rel) != _golden_sha(g, rel)]
-                    stale = _stale_class(world, bp, tog, diff[0], _sha(before, diff[0]))
+                    earlier = []
+                    for other in run["execs"]:
+                        if other["n"] < ex["n"] and other["toggles"] != tog and other["toggles"] not in earlier:
+                            earlier.append(other["toggles"])  # incl. the sibling project's source state
+                    stale = _stale_class(world, bp, tog, diff[0], _sha(before, diff[0]), earlier)
                     name = ("check-passes-on-" + stale) if stale else ("check-passes-on-outdated-" + file_class(diff[0]))
                     viol("C10", inv, name, ex,
                          f"--check exited 0 although {diff} differ from the golden bytes",
